@@ -54,7 +54,19 @@ func c05Variants(tier string, reportsBase string) []cfgVariant {
 }
 
 // deriveConfig parses baseYAML, sets options, absolutises relative file references, and returns the new yaml.
-func deriveConfig(baseYAML string, origDir string, set map[string]any) (string, error) {
+// File references (dataflow-specs, escape-config) are resolved by the tool relative to the directory of the
+// configuration file (even when absolute), so they are rewritten relative to cfgDir, where the derived file goes.
+func deriveConfig(baseYAML string, origDir string, cfgDir string, set map[string]any) (string, error) {
+	relTo := func(s string) string {
+		abs := s
+		if !filepath.IsAbs(abs) {
+			abs = filepath.Join(origDir, s)
+		}
+		if r, err := filepath.Rel(cfgDir, abs); err == nil {
+			return r
+		}
+		return abs
+	}
 	var m map[string]any
 	if err := yaml.Unmarshal([]byte(baseYAML), &m); err != nil {
 		return "", err
@@ -73,15 +85,15 @@ func deriveConfig(baseYAML string, origDir string, set map[string]any) (string, 
 		opts[k] = v
 	}
 	for _, k := range []string{"escape-config"} {
-		if s, ok := opts[k].(string); ok && s != "" && !filepath.IsAbs(s) {
-			opts[k] = filepath.Join(origDir, s)
+		if s, ok := opts[k].(string); ok && s != "" {
+			opts[k] = relTo(s)
 		}
 	}
 	m["options"] = opts
 	if l, ok := m["dataflow-specs"].([]any); ok {
 		for i, x := range l {
-			if s, ok := x.(string); ok && !filepath.IsAbs(s) {
-				l[i] = filepath.Join(origDir, s)
+			if s, ok := x.(string); ok {
+				l[i] = relTo(s)
 			}
 		}
 	}
@@ -196,7 +208,7 @@ func C05(tier string) {
 		variants := c05Variants(tier, work)
 		job := &TaintJob{Dir: p.Dir, Out: filepath.Join(work, "out.json")}
 		write := func(name string, set map[string]any) bool {
-			y, err := deriveConfig(p.BaseYAML, p.OrigDir, set)
+			y, err := deriveConfig(p.BaseYAML, p.OrigDir, work, set)
 			if err != nil {
 				run.Inconclusive(p.Name + ": cannot derive config: " + err.Error())
 				return false
